@@ -29,32 +29,168 @@ theorem rtr_only_if_enabled_and_allowed (m : PMap) :
   · intro h1 h2; simp [h1, h2]
 
 /-- **A received frame updates only a map configured for its COB-ID** (and not one that is itself
-    transmitting): any other frame leaves the map exactly as it was and invokes no callback. -/
+    transmitting): any other frame leaves the map exactly as it was, invokes no callback and wakes
+    nobody. -/
 theorem only_subscribed_map_updates (m : PMap) (canId : Nat) (data : Bytes) (ts : Int)
-    (h : m.cobId ≠ some canId ∨ m.transmitting = true) : onMessage m canId data ts = (m, []) := by
+    (h : m.cobId ≠ some canId ∨ m.transmitting = true) :
+    onMessage m canId data ts = { map := m, seen := [], woken := false, raised := false } := by
   unfold onMessage
   rcases h with h | h
   · simp [h]
   · simp [h]
 
-/-- **An accepted frame: data and timestamp taken over, every callback once, in order.** -/
+/-- closed form of an accepted frame: the statements of the receive block in their order -/
+theorem onMessage_accepted (m : PMap) (canId : Nat) (data : Bytes) (ts : Int)
+    (hc : m.cobId = some canId) (ht : m.transmitting = false) :
+    onMessage m canId data ts =
+      { map := accept m data ts,
+        seen := (invoked m.callbacks).map (fun cb => (cb.1, accept m data ts)),
+        woken := true, raised := anyRaises m.callbacks } := by
+  unfold onMessage
+  rw [if_pos ⟨hc, by simp [ht]⟩]
+  simp [onMessageOrder, runEffects, applyEffect, accept, newPeriod]
+
+theorem invoked_of_no_raise : ∀ (cbs : List (Nat × Bool)), anyRaises cbs = false → invoked cbs = cbs := by
+  intro cbs
+  induction cbs with
+  | nil => intro _; rfl
+  | cons cb rest ih =>
+    intro h
+    simp only [anyRaises, List.any_cons, Bool.or_eq_false_iff] at h
+    simp only [invoked, h.1, Bool.false_eq_true, if_false]
+    rw [ih (by simpa [anyRaises] using h.2)]
+
+/-- the callbacks invoked are a prefix of the registered ones, each at most once, in order -/
+theorem invoked_prefix : ∀ (cbs : List (Nat × Bool)), ∃ rest, cbs = invoked cbs ++ rest := by
+  intro cbs
+  induction cbs with
+  | nil => exact ⟨[], rfl⟩
+  | cons cb rest ih =>
+    obtain ⟨r, hr⟩ := ih
+    by_cases h : cb.2 = true
+    · exact ⟨rest, by simp [invoked, h]⟩
+    · refine ⟨r, ?_⟩
+      simp only [invoked, h, Bool.false_eq_true, if_false, List.cons_append]
+      rw [← hr]
+
+/-- **An accepted frame: data and timestamp taken over, the callbacks invoked in order — every one
+    of them once when none raises, otherwise up to and including the first that raises.** -/
 theorem callbacks_once (m : PMap) (canId : Nat) (data : Bytes) (ts : Int)
     (hc : m.cobId = some canId) (ht : m.transmitting = false) :
-    (onMessage m canId data ts).2 = m.callbacks ∧
-    (onMessage m canId data ts).1.data = data ∧
-    (onMessage m canId data ts).1.timestamp = some ts ∧
-    (onMessage m canId data ts).1.isReceived = true ∧
-    (onMessage m canId data ts).1.layout = m.layout ∧
-    (onMessage m canId data ts).1.callbacks = m.callbacks ∧
-    (∀ t0, m.timestamp = some t0 → (onMessage m canId data ts).1.period = some (ts - t0)) := by
-  unfold onMessage
-  have hcond : m.cobId = some canId ∧ ¬ m.transmitting = true := ⟨hc, by simp [ht]⟩
-  rw [if_pos hcond]
-  refine ⟨rfl, rfl, rfl, rfl, rfl, rfl, ?_⟩
-  intro t0 h0
-  simp [h0]
+    (onMessage m canId data ts).seen.map (·.1) = (invoked m.callbacks).map (·.1) ∧
+    (anyRaises m.callbacks = false → (onMessage m canId data ts).seen.map (·.1) = m.callbacks.map (·.1)) ∧
+    (onMessage m canId data ts).map.data = data ∧
+    (onMessage m canId data ts).map.timestamp = some ts ∧
+    (onMessage m canId data ts).map.isReceived = true ∧
+    (onMessage m canId data ts).map.layout = m.layout ∧
+    (onMessage m canId data ts).map.callbacks = m.callbacks ∧
+    (∀ t0, m.timestamp = some t0 → (onMessage m canId data ts).map.period = some (ts - t0)) := by
+  rw [onMessage_accepted m canId data ts hc ht]
+  refine ⟨by simp [Function.comp_def], ?_, rfl, rfl, rfl, rfl, rfl, ?_⟩
+  · intro h
+    rw [invoked_of_no_raise _ h]
+    simp [Function.comp_def]
+  · intro t0 h0
+    simp [accept, newPeriod, h0]
+
+/-- **Every callback invoked for a frame sees that frame**: the map it is handed is the map as
+    `on_message` leaves it — the frame's data (so every mapped variable reads the frame's value), the
+    frame's timestamp, `is_received` set, the period already updated. -/
+theorem callback_sees_frame (m : PMap) (canId : Nat) (data : Bytes) (ts : Int) :
+    ∀ e ∈ (onMessage m canId data ts).seen,
+      e.2 = (onMessage m canId data ts).map ∧ e.2.data = data ∧ e.2.timestamp = some ts ∧
+      e.2.isReceived = true ∧ e.2.period = newPeriod m ts ∧ (∀ i, readVar e.2 i = readVar (accept m data ts) i) := by
+  intro e he
+  by_cases hcond : m.cobId = some canId ∧ m.transmitting = false
+  · rw [onMessage_accepted m canId data ts hcond.1 hcond.2] at he ⊢
+    simp only [List.mem_map] at he
+    obtain ⟨cb, _, rfl⟩ := he
+    exact ⟨rfl, rfl, rfl, rfl, rfl, fun _ => rfl⟩
+  · have : m.cobId ≠ some canId ∨ m.transmitting = true := by
+      by_cases h1 : m.cobId = some canId
+      · right
+        cases h2 : m.transmitting with
+        | true => rfl
+        | false => exact absurd ⟨h1, h2⟩ hcond
+      · left; exact h1
+    rw [only_subscribed_map_updates m canId data ts this] at he
+    simp at he
+
+/-- **What reception leaves and whom it wakes does not depend on the callbacks or their outcomes**:
+    with any other list of callbacks (raising or not) the map ends up the same (up to that list) and
+    the waiting readers are notified. -/
+theorem reception_independent_of_callbacks (m : PMap) (canId : Nat) (data : Bytes) (ts : Int)
+    (hc : m.cobId = some canId) (ht : m.transmitting = false) (cbs : List (Nat × Bool)) :
+    (onMessage { m with callbacks := cbs } canId data ts).map = { (onMessage m canId data ts).map with callbacks := cbs } ∧
+    (onMessage { m with callbacks := cbs } canId data ts).woken = true ∧
+    (onMessage m canId data ts).woken = true ∧
+    (onMessage m canId data ts).map = accept m data ts := by
+  rw [onMessage_accepted m canId data ts hc ht,
+    onMessage_accepted { m with callbacks := cbs } canId data ts hc ht]
+  exact ⟨rfl, rfl, rfl, rfl⟩
 
 /-! ## dispatch on the consumer's network -/
+
+/-- does delivering the frame to map `k` end in an exception? -/
+def raisesAt (maps : List PMap) (canId : Nat) (data : Bytes) (ts : Int) (k : Nat) : Bool :=
+  match maps[k]? with
+  | some m => (onMessage m canId data ts).raised
+  | none => false
+
+/-- the invocations delivering the frame to map `k` causes -/
+def callsOf (maps : List PMap) (canId : Nat) (data : Bytes) (ts : Int) (k : Nat) : List Call :=
+  match maps[k]? with
+  | some m => (onMessage m canId data ts).seen.map fun e => (k, e.1, e.2)
+  | none => []
+
+/-- the handlers a loop with early exit gets to: up to and including the first with `p` -/
+def reach (p : Nat → Bool) : List Nat → List Nat
+  | [] => []
+  | k :: ks => if p k then [k] else k :: reach p ks
+
+theorem reach_sublist (p : Nat → Bool) : ∀ ks, (reach p ks).Sublist ks := by
+  intro ks
+  induction ks with
+  | nil => exact List.Sublist.slnil
+  | cons k ks ih =>
+    simp only [reach]
+    split
+    · exact (List.Sublist.cons₂ k (List.nil_sublist ks))
+    · exact List.Sublist.cons₂ k ih
+
+theorem reach_congr (p q : Nat → Bool) : ∀ ks, (∀ j ∈ ks, p j = q j) → reach p ks = reach q ks := by
+  intro ks
+  induction ks with
+  | nil => intro _; rfl
+  | cons k ks ih =>
+    intro h
+    simp only [reach]
+    rw [h k (by simp), ih (fun j hj => h j (by simp [hj]))]
+
+theorem reach_all (p : Nat → Bool) : ∀ ks, (∀ j ∈ ks, p j = false) → reach p ks = ks := by
+  intro ks
+  induction ks with
+  | nil => intro _; rfl
+  | cons k ks ih =>
+    intro h
+    simp only [reach, h k (by simp), Bool.false_eq_true, if_false]
+    rw [ih (fun j hj => h j (by simp [hj]))]
+
+theorem mem_reach (p : Nat → Bool) (k : Nat) : ∀ ks, k ∈ ks → (∀ j ∈ ks, j ≠ k → p j = false) → k ∈ reach p ks := by
+  intro ks
+  induction ks with
+  | nil => intro h; simp at h
+  | cons j js ih =>
+    intro hk h
+    simp only [reach]
+    by_cases hjk : j = k
+    · subst hjk
+      split <;> simp
+    · have hp : p j = false := h j (by simp) hjk
+      simp only [hp, Bool.false_eq_true, if_false]
+      rcases List.mem_cons.mp hk with rfl | hk'
+      · exact absurd rfl hjk
+      · exact List.mem_cons_of_mem _ (ih hk' (fun i hi => h i (by simp [hi])))
 
 theorem deliverTo_other (maps : List PMap) (k j : Nat) (canId : Nat) (data : Bytes) (ts : Int) (h : j ≠ k) :
     (deliverTo maps k canId data ts).1[j]? = maps[j]? := by
@@ -65,85 +201,112 @@ theorem deliverTo_other (maps : List PMap) (k j : Nat) (canId : Nat) (data : Byt
 
 theorem deliverTo_self (maps : List PMap) (k : Nat) (m : PMap) (canId : Nat) (data : Bytes) (ts : Int)
     (hk : maps[k]? = some m) :
-    (deliverTo maps k canId data ts).1[k]? = some (onMessage m canId data ts).1 ∧
-    (deliverTo maps k canId data ts).2 = (onMessage m canId data ts).2.map fun cb => (k, cb) := by
+    (deliverTo maps k canId data ts).1[k]? = some (onMessage m canId data ts).map := by
   unfold deliverTo
   have hlt : k < maps.length := by
     rcases List.getElem?_eq_some_iff.mp hk with ⟨h, _⟩; exact h
   rw [hk]
-  simp [List.getElem?_set, hlt]
+  simp [hlt]
 
-/-- folding deliveries over a duplicate-free target list: each target map is delivered to once,
-    every other map is untouched -/
-theorem fold_deliver (canId : Nat) (data : Bytes) (ts : Int) :
-    ∀ (ks : List Nat) (maps : List PMap) (log : List (Nat × Nat)), ks.Nodup →
-      let r := ks.foldl (fun (acc : List PMap × List (Nat × Nat)) k =>
-        ((deliverTo acc.1 k canId data ts).1, acc.2 ++ (deliverTo acc.1 k canId data ts).2)) (maps, log)
-      (∀ j, j ∉ ks → r.1[j]? = maps[j]?) ∧
-      (∀ j m, j ∈ ks → maps[j]? = some m → r.1[j]? = some (onMessage m canId data ts).1) ∧
-      r.2 = log ++ ks.flatMap fun k =>
-        match maps[k]? with
-        | some m => (onMessage m canId data ts).2.map fun cb => (k, cb)
-        | none => [] := by
+theorem deliverTo_log (maps : List PMap) (k : Nat) (canId : Nat) (data : Bytes) (ts : Int) :
+    (deliverTo maps k canId data ts).2.1 = callsOf maps canId data ts k ∧
+    (deliverTo maps k canId data ts).2.2 = raisesAt maps canId data ts k := by
+  unfold deliverTo callsOf raisesAt
+  cases maps[k]? with
+  | none => exact ⟨rfl, rfl⟩
+  | some m => exact ⟨rfl, rfl⟩
+
+/-- the dispatch loop over a duplicate-free handler list: the maps it gets to (up to and including
+    the first whose callback raises) are delivered to once each, every other map is untouched -/
+theorem loop_deliver (canId : Nat) (data : Bytes) (ts : Int) :
+    ∀ (ks : List Nat) (maps : List PMap) (log : List Call), ks.Nodup →
+      (∀ j, j ∉ reach (raisesAt maps canId data ts) ks → (notifyLoop canId data ts ks maps log).1[j]? = maps[j]?) ∧
+      (∀ j m, j ∈ reach (raisesAt maps canId data ts) ks → maps[j]? = some m →
+        (notifyLoop canId data ts ks maps log).1[j]? = some (onMessage m canId data ts).map) ∧
+      (notifyLoop canId data ts ks maps log).2.1 =
+        log ++ (reach (raisesAt maps canId data ts) ks).flatMap (callsOf maps canId data ts) := by
   intro ks
   induction ks with
-  | nil => intro maps log _; simp
+  | nil => intro maps log _; simp [notifyLoop, reach]
   | cons k ks ih =>
     intro maps log hnd
     have hk : k ∉ ks := (List.nodup_cons.mp hnd).1
     have hnd' : ks.Nodup := (List.nodup_cons.mp hnd).2
-    simp only [List.foldl_cons]
-    obtain ⟨i1, i2, i3⟩ := ih (deliverTo maps k canId data ts).1 (log ++ (deliverTo maps k canId data ts).2) hnd'
-    refine ⟨?_, ?_, ?_⟩
-    · intro j hj
-      have hjk : j ≠ k := fun h => hj (by simp [h])
-      have hjks : j ∉ ks := fun h => hj (by simp [h])
-      rw [i1 j hjks, deliverTo_other maps k j canId data ts hjk]
-    · intro j m hj hm
-      rcases List.mem_cons.mp hj with rfl | hj'
-      · rw [i1 j hk]
-        exact (deliverTo_self maps j m canId data ts hm).1
-      · have hjk : j ≠ k := fun h => hk (h ▸ hj')
-        exact i2 j m hj' (by rw [deliverTo_other maps k j canId data ts hjk]; exact hm)
-    · rw [i3]
-      simp only [List.flatMap_cons, List.append_assoc]
-      congr 1
-      congr 1
-      · cases hm : maps[k]? with
-        | none => simp [deliverTo, hm]
-        | some m => exact (deliverTo_self maps k m canId data ts hm).2
-      · apply List.flatMap_congr
+    obtain ⟨hlog, hrz⟩ := deliverTo_log maps k canId data ts
+    simp only [notifyLoop, reach]
+    rw [hrz, hlog]
+    cases hr : raisesAt maps canId data ts k with
+    | true =>
+      simp only [if_true]
+      refine ⟨?_, ?_, by simp⟩
+      · intro j hj
+        exact deliverTo_other maps k j canId data ts (by simpa using hj)
+      · intro j m hj hm
+        have : j = k := by simpa using hj
+        subst this
+        exact deliverTo_self maps j m canId data ts hm
+    | false =>
+      simp only [Bool.false_eq_true, if_false]
+      have hsame : ∀ j ∈ ks, (deliverTo maps k canId data ts).1[j]? = maps[j]? := fun j hj =>
+        deliverTo_other maps k j canId data ts (fun h => hk (h ▸ hj))
+      have hreach : reach (raisesAt (deliverTo maps k canId data ts).1 canId data ts) ks =
+          reach (raisesAt maps canId data ts) ks :=
+        reach_congr _ _ ks (fun j hj => by simp only [raisesAt, hsame j hj])
+      obtain ⟨i1, i2, i3⟩ := ih (deliverTo maps k canId data ts).1 (log ++ callsOf maps canId data ts k) hnd'
+      rw [hreach] at i1 i2 i3
+      have hsub := reach_sublist (raisesAt maps canId data ts) ks
+      have hkr : k ∉ reach (raisesAt maps canId data ts) ks := fun h => hk (hsub.subset h)
+      refine ⟨?_, ?_, ?_⟩
+      · intro j hj
+        have hjk : j ≠ k := fun h => hj (by simp [h])
+        have hjr : j ∉ reach (raisesAt maps canId data ts) ks := fun h => hj (by simp [h])
+        rw [i1 j hjr, deliverTo_other maps k j canId data ts hjk]
+      · intro j m hj hm
+        rcases List.mem_cons.mp hj with rfl | hj'
+        · rw [i1 j hkr]
+          exact deliverTo_self maps j m canId data ts hm
+        · have hjk : j ≠ k := fun h => hkr (h ▸ hj')
+          exact i2 j m hj' (by rw [deliverTo_other maps k j canId data ts hjk]; exact hm)
+      · rw [i3]
+        simp only [List.flatMap_cons, List.append_assoc]
+        congr 2
+        apply List.flatMap_congr
         intro j hj
-        have hjk : j ≠ k := fun h => hk (h ▸ hj)
-        rw [deliverTo_other maps k j canId data ts hjk]
+        simp only [callsOf, hsame j (hsub.subset hj)]
 
 /-- the consumer maps subscribed on `canId`, in subscription order -/
 def targets (c : Consumer) (canId : Nat) : List Nat := (c.subs.filter fun s => s.1 = canId).map (·.2)
 
 theorem notify_eq (c : Consumer) (canId : Nat) (data : Bytes) (ts : Int) :
     notify c canId data ts =
-      let r := (targets c canId).foldl (fun (acc : List PMap × List (Nat × Nat)) k =>
-        ((deliverTo acc.1 k canId data ts).1, acc.2 ++ (deliverTo acc.1 k canId data ts).2)) (c.maps, [])
-      ({ c with maps := r.1 }, r.2) := by
-  simp [notify, targets]
+      ({ c with maps := (notifyLoop canId data ts (targets c canId) c.maps []).1 },
+       (notifyLoop canId data ts (targets c canId) c.maps []).2.1) := rfl
+
+/-- the subscribed maps a frame gets to: all of them unless a callback raises on the way -/
+def reached (c : Consumer) (canId : Nat) (data : Bytes) (ts : Int) : List Nat :=
+  reach (raisesAt c.maps canId data ts) (targets c canId)
 
 /-- **A received frame updates exactly the maps subscribed to its COB-ID**: a map not subscribed
     on that id is untouched; a subscribed map is handed the frame once (and takes it iff it is
     configured for that COB-ID and not transmitting — with colliding COB-IDs, all of them); the
-    callbacks invoked are those of the accepting maps, each once, in subscription order. -/
+    callbacks invoked are those of the accepting maps, in subscription order.  When a callback
+    raises, the dispatch of that frame ends there (the listener logs the exception): the maps after
+    it in subscription order are untouched; without a raising callback every subscribed map is
+    reached. -/
 theorem notify_updates_exactly_subscribed (c : Consumer) (canId : Nat) (data : Bytes) (ts : Int)
     (hnd : (targets c canId).Nodup) :
     (∀ j, j ∉ targets c canId → (notify c canId data ts).1.maps[j]? = c.maps[j]?) ∧
-    (∀ j m, j ∈ targets c canId → c.maps[j]? = some m →
-      (notify c canId data ts).1.maps[j]? = some (onMessage m canId data ts).1) ∧
-    (notify c canId data ts).2 = (targets c canId).flatMap (fun k =>
-        match c.maps[k]? with
-        | some m => (onMessage m canId data ts).2.map fun cb => (k, cb)
-        | none => []) ∧
-    (notify c canId data ts).1.subs = c.subs := by
+    (∀ j, j ∉ reached c canId data ts → (notify c canId data ts).1.maps[j]? = c.maps[j]?) ∧
+    (∀ j m, j ∈ reached c canId data ts → c.maps[j]? = some m →
+      (notify c canId data ts).1.maps[j]? = some (onMessage m canId data ts).map) ∧
+    (notify c canId data ts).2 = (reached c canId data ts).flatMap (callsOf c.maps canId data ts) ∧
+    (notify c canId data ts).1.subs = c.subs ∧
+    ((∀ j ∈ targets c canId, raisesAt c.maps canId data ts j = false) → reached c canId data ts = targets c canId) := by
   rw [notify_eq]
-  obtain ⟨h1, h2, h3⟩ := fold_deliver canId data ts (targets c canId) c.maps [] hnd
-  exact ⟨h1, h2, by simpa using h3, rfl⟩
+  obtain ⟨h1, h2, h3⟩ := loop_deliver canId data ts (targets c canId) c.maps [] hnd
+  refine ⟨?_, h1, h2, by simpa [reached] using h3, rfl, reach_all _ _⟩
+  intro j hj
+  exact h1 j (fun h => hj ((reach_sublist _ _).subset h))
 
 /-- `subscribe()` never duplicates an entry, so target lists stay duplicate-free -/
 theorem subscribe_nodup (c : Consumer) (k : Nat) (h : c.subs.Nodup) : (subscribeMap c k).subs.Nodup := by
@@ -179,76 +342,92 @@ theorem readVar_congr (m m' : PMap) (i : Nat) (hl : m'.layout = m.layout) (hd : 
     readVar m' i = readVar m i := by
   simp [readVar, lens, hl, hd]
 
+/-- the invocations tagged with map `k` in a dispatch over a duplicate-free handler list are those
+    of the one delivery to `k` -/
+theorem filter_calls (f : Nat → List Call) (hf : ∀ j, ∀ e ∈ f j, e.1 = j) (k : Nat) :
+    ∀ ks : List Nat, ks.Nodup → k ∈ ks →
+      (ks.flatMap f).filter (fun (e : Call) => decide (e.1 = k)) = f k := by
+  intro ks
+  induction ks with
+  | nil => intro _ h; simp at h
+  | cons j js ih =>
+    intro hn hm
+    have hj : j ∉ js := (List.nodup_cons.mp hn).1
+    have hn' := (List.nodup_cons.mp hn).2
+    have hnone : ∀ (i : Nat), i ≠ k → (f i).filter (fun (e : Call) => decide (e.1 = k)) = [] := by
+      intro i hik
+      apply List.filter_eq_nil_iff.mpr
+      intro e he
+      have := hf i e he
+      simp only [decide_eq_true_eq]
+      omega
+    simp only [List.flatMap_cons, List.filter_append]
+    rcases List.mem_cons.mp hm with rfl | hm'
+    · have hrest : (js.flatMap f).filter (fun (e : Call) => decide (e.1 = k)) = [] := by
+        apply List.filter_eq_nil_iff.mpr
+        intro e he
+        simp only [List.mem_flatMap] at he
+        obtain ⟨i, hi, he'⟩ := he
+        have hik : i ≠ k := fun h => hj (h ▸ hi)
+        have := hf i e he'
+        simp only [decide_eq_true_eq]
+        omega
+      rw [hrest, List.append_nil]
+      apply List.filter_eq_self.mpr
+      intro e he
+      simpa using hf k e he
+    · have hjk : j ≠ k := fun h => hj (h ▸ hm')
+      rw [hnone j hjk, List.nil_append]
+      exact ih hn' hm'
+
+theorem callsOf_tag (maps : List PMap) (canId : Nat) (data : Bytes) (ts : Int) :
+    ∀ j, ∀ e ∈ callsOf maps canId data ts j, e.1 = j := by
+  intro j e he
+  unfold callsOf at he
+  cases hm : maps[j]? with
+  | none => simp [hm] at he
+  | some m =>
+    simp only [hm, List.mem_map] at he
+    obtain ⟨_, _, rfl⟩ := he
+    rfl
+
 /-- **What the producer wrote is what the consumer reads.**  Producer map and consumer map share
-    layout and COB-ID; the consumer map is subscribed on that COB-ID and not transmitting.  After
-    the producer's frame is delivered, *every* variable of the consumer map reads exactly what the
-    same variable reads on the producer (which by `writes_then_read` is the last value written to
-    it), the map carries the frame's timestamp, and each of its callbacks ran once, in order. -/
+    layout and COB-ID; the consumer map is subscribed on that COB-ID and not transmitting (and no
+    callback of another map subscribed to the same COB-ID raises, which would end the dispatch).
+    After the producer's frame is delivered, *every* variable of the consumer map reads exactly
+    what the same variable reads on the producer (which by `writes_then_read` is the last value
+    written to it), the map carries the frame's timestamp, and the callbacks of the map that were
+    invoked — all of them, once each, in order, when none raises — were handed exactly that map:
+    inside a callback the variables and the timestamp are those of this frame. -/
 theorem producer_consumer (pm cm : PMap) (c : Consumer) (k cob : Nat) (ts : Int)
     (hnd : c.subs.Nodup) (hk : c.maps[k]? = some cm) (hsub : (cob, k) ∈ c.subs)
     (hpc : pm.cobId = some cob) (hcc : cm.cobId = some cob) (hlay : cm.layout = pm.layout)
-    (htr : cm.transmitting = false) :
+    (htr : cm.transmitting = false)
+    (hnr : ∀ j ∈ targets c cob, j ≠ k → raisesAt c.maps cob pm.data ts j = false) :
     ∃ cm', transmit pm = some (cob, pm.data) ∧
       (notify c cob pm.data ts).1.maps[k]? = some cm' ∧
       (∀ i, readVar cm' i = readVar pm i) ∧ cm'.timestamp = some ts ∧
-      ((notify c cob pm.data ts).2.filter fun (e : Nat × Nat) => e.1 = k) = cm.callbacks.map fun cb => (k, cb) := by
+      ((notify c cob pm.data ts).2.filter fun (e : Call) => decide (e.1 = k)) =
+        (invoked cm.callbacks).map (fun cb => (k, cb.1, cm')) ∧
+      (anyRaises cm.callbacks = false → invoked cm.callbacks = cm.callbacks) := by
   have hkt : k ∈ targets c cob := by
     simp only [targets, List.mem_map, List.mem_filter, decide_eq_true_eq]
     exact ⟨(cob, k), ⟨hsub, rfl⟩, rfl⟩
   have htn := targets_nodup c cob hnd
-  obtain ⟨_, h2, h3, _⟩ := notify_updates_exactly_subscribed c cob pm.data ts htn
-  obtain ⟨c1, c2, c3, _, c5, _, _⟩ := callbacks_once cm cob pm.data ts hcc htr
-  refine ⟨(onMessage cm cob pm.data ts).1, transmit_frame pm cob hpc, h2 k cm hkt hk, ?_, c3, ?_⟩
+  have hkr : k ∈ reached c cob pm.data ts := mem_reach _ k _ hkt hnr
+  have hrn : (reached c cob pm.data ts).Nodup := (reach_sublist _ _).nodup htn
+  obtain ⟨_, _, h2, h3, _, _⟩ := notify_updates_exactly_subscribed c cob pm.data ts htn
+  have hacc := onMessage_accepted cm cob pm.data ts hcc htr
+  refine ⟨(onMessage cm cob pm.data ts).map, transmit_frame pm cob hpc, h2 k cm hkr hk, ?_, ?_, ?_,
+    invoked_of_no_raise _⟩
   · intro i
-    exact readVar_congr pm _ i (by rw [c5, hlay]) c2
-  · rw [h3]
-    -- only target k contributes entries tagged k, and it occurs once
-    have : ∀ (ks : List Nat), ks.Nodup → k ∈ ks →
-        ((ks.flatMap fun j => match c.maps[j]? with
-            | some m => (onMessage m cob pm.data ts).2.map fun cb => (j, cb)
-            | none => []).filter fun (e : Nat × Nat) => e.1 = k) = cm.callbacks.map fun cb => (k, cb) := by
-      intro ks
-      induction ks with
-      | nil => intro _ h; simp at h
-      | cons j js ih =>
-        intro hn hm
-        have hj : j ∉ js := (List.nodup_cons.mp hn).1
-        have hn' := (List.nodup_cons.mp hn).2
-        simp only [List.flatMap_cons, List.filter_append]
-        rcases List.mem_cons.mp hm with rfl | hm'
-        · rw [hk]
-          simp only [c1]
-          have hrest : ((js.flatMap fun j => match c.maps[j]? with
-              | some m => (onMessage m cob pm.data ts).2.map fun cb => (j, cb)
-              | none => []).filter fun (e : Nat × Nat) => e.1 = k) = [] := by
-            apply List.filter_eq_nil_iff.mpr
-            intro e he
-            simp only [List.mem_flatMap] at he
-            obtain ⟨j, hj', he'⟩ := he
-            have : j ≠ k := fun h => hj (h ▸ hj')
-            cases hm : c.maps[j]? with
-            | none => simp [hm] at he'
-            | some m =>
-              simp only [hm, List.mem_map] at he'
-              obtain ⟨cb, _, rfl⟩ := he'
-              simpa using this
-          rw [hrest, List.append_nil]
-          simp [List.filter_map, Function.comp_def]
-        · have hjk : j ≠ k := fun h => hj (h ▸ hm')
-          have hhead : ((match c.maps[j]? with
-              | some m => (onMessage m cob pm.data ts).2.map fun cb => (j, cb)
-              | none => []).filter fun (e : Nat × Nat) => e.1 = k) = [] := by
-            apply List.filter_eq_nil_iff.mpr
-            intro e he
-            cases hm : c.maps[j]? with
-            | none => simp [hm] at he
-            | some m =>
-              simp only [hm, List.mem_map] at he
-              obtain ⟨cb, _, rfl⟩ := he
-              simpa using hjk
-          rw [hhead, List.nil_append]
-          exact ih hn' hm'
-    exact this (targets c cob) htn hkt
+    rw [hacc]
+    exact readVar_congr pm _ i hlay rfl
+  · rw [hacc]; rfl
+  · rw [h3, filter_calls _ (callsOf_tag c.maps cob pm.data ts) k _ hrn hkr]
+    simp only [callsOf, hk]
+    rw [hacc]
+    simp [Function.comp_def]
 
 /-! ## what a producer variable holds after a sequence of writes -/
 
@@ -492,25 +671,29 @@ theorem runP_cob_layout : ∀ (steps : List PStep) (m : PMap),
 theorem producer_consumer_periodic (pm cm : PMap) (steps : List PStep) (c : Consumer) (k cob : Nat) (ts : Int)
     (hnd : c.subs.Nodup) (hk : c.maps[k]? = some cm) (hsub : (cob, k) ∈ c.subs)
     (hpc : pm.cobId = some cob) (hcc : cm.cobId = some cob) (hlay : cm.layout = pm.layout)
-    (htr : cm.transmitting = false) :
+    (htr : cm.transmitting = false)
+    (hnr : ∀ j ∈ targets c cob, j ≠ k →
+      raisesAt c.maps cob (runP pm (steps.filter PStep.isWrite)).data ts j = false) :
     ∃ cm', transmit (runP pm steps) = some (cob, (runP pm (steps.filter PStep.isWrite)).data) ∧
       (notify c cob (runP pm (steps.filter PStep.isWrite)).data ts).1.maps[k]? = some cm' ∧
       (∀ i, readVar cm' i = readVar (runP pm (steps.filter PStep.isWrite)) i) ∧ cm'.timestamp = some ts := by
   obtain ⟨h1, _, _⟩ := transmit_independent_of_periodic pm steps
   obtain ⟨hc0, hl0⟩ := runP_cob_layout (steps.filter PStep.isWrite) pm
   obtain ⟨cm', t1, t2, t3, t4, _⟩ := producer_consumer (runP pm (steps.filter PStep.isWrite)) cm c k cob ts
-    hnd hk hsub (by rw [hc0, hpc]) hcc (by rw [hl0, hlay]) htr
+    hnd hk hsub (by rw [hc0, hpc]) hcc (by rw [hl0, hlay]) htr hnr
   exact ⟨cm', by rw [h1, t1], t2, t3, t4⟩
 
 /-- **The consuming side**: a map whose periodic transmission was started ignores frames; after
     `stop()` it takes the next frame for its COB-ID — data, timestamp, callbacks once each — as if
     it had never transmitted. -/
 theorem start_stop_reception (m : PMap) (p : Option Int) (canId : Nat) (data : Bytes) (ts : Int) :
-    ((start m p).2 = true → onMessage (start m p).1 canId data ts = ((start m p).1, [])) ∧
+    ((start m p).2 = true → onMessage (start m p).1 canId data ts =
+      { map := (start m p).1, seen := [], woken := false, raised := false }) ∧
     (m.cobId = some canId →
-      (onMessage (stop (start m p).1) canId data ts).2 = m.callbacks ∧
-      (onMessage (stop (start m p).1) canId data ts).1.data = data ∧
-      (onMessage (stop (start m p).1) canId data ts).1.timestamp = some ts) := by
+      (onMessage (stop (start m p).1) canId data ts).seen.map (·.1) = (invoked m.callbacks).map (·.1) ∧
+      (onMessage (stop (start m p).1) canId data ts).map.data = data ∧
+      (onMessage (stop (start m p).1) canId data ts).map.timestamp = some ts ∧
+      (onMessage (stop (start m p).1) canId data ts).woken = true) := by
   constructor
   · intro h
     apply only_subscribed_map_updates
@@ -528,49 +711,90 @@ theorem start_stop_reception (m : PMap) (p : Option Int) (canId : Nat) (data : B
     have hcb : (stop (start m p).1).callbacks = m.callbacks := by
       have := congrArg PMap.callbacks (core_ctl m (.start p))
       simpa [ctl, stop, core] using this
-    obtain ⟨c1, c2, c3, _⟩ := callbacks_once (stop (start m p).1) canId data ts hc' rfl
-    exact ⟨c1.trans hcb, c2, c3⟩
+    have hacc := onMessage_accepted (stop (start m p).1) canId data ts hc' rfl
+    rw [hacc, hcb]
+    exact ⟨by simp [Function.comp_def], rfl, rfl, rfl⟩
 
 /-! ## waiting for reception -/
 
-/-- **A waiting reader is woken by a frame for its map and gets that frame's timestamp; without
-    one it gets nothing.**  (The wait is a function of what is delivered while waiting.) -/
+theorem clearReceived_self (c : Consumer) (k : Nat) (cm : PMap) (hk : c.maps[k]? = some cm) :
+    (clearReceived c k).maps[k]? = some { cm with isReceived := false } ∧ (clearReceived c k).subs = c.subs := by
+  have hklt : k < c.maps.length := by
+    rcases List.getElem?_eq_some_iff.mp hk with ⟨h, _⟩; exact h
+  simp only [clearReceived, hk]
+  simp [hklt]
+
+theorem clearReceived_other (c : Consumer) (k j : Nat) (h : j ≠ k) :
+    (clearReceived c k).maps[j]? = c.maps[j]? := by
+  unfold clearReceived
+  cases hk : c.maps[k]? with
+  | none => rfl
+  | some m => simp [List.getElem?_set, h.symm]
+
+/-- clearing `is_received` of one map does not change whether a delivery to any map raises -/
+theorem raisesAt_clear (c : Consumer) (k : Nat) (canId : Nat) (data : Bytes) (ts : Int) (j : Nat) :
+    raisesAt (clearReceived c k).maps canId data ts j = raisesAt c.maps canId data ts j := by
+  by_cases hjk : j = k
+  · subst hjk
+    unfold raisesAt
+    cases hk : c.maps[j]? with
+    | none => simp [clearReceived, hk]
+    | some cm =>
+      rw [(clearReceived_self c j cm hk).1]
+      dsimp only
+      by_cases hcond : cm.cobId = some canId ∧ cm.transmitting = false
+      · rw [onMessage_accepted { cm with isReceived := false } canId data ts hcond.1 hcond.2,
+          onMessage_accepted cm canId data ts hcond.1 hcond.2]
+      · have hno : cm.cobId ≠ some canId ∨ cm.transmitting = true := by
+          by_cases h1 : cm.cobId = some canId
+          · right
+            cases h2 : cm.transmitting with
+            | true => rfl
+            | false => exact absurd ⟨h1, h2⟩ hcond
+          · left; exact h1
+        rw [only_subscribed_map_updates { cm with isReceived := false } canId data ts hno,
+          only_subscribed_map_updates cm canId data ts hno]
+  · simp only [raisesAt, clearReceived_other c k j hjk]
+
+/-- **A waiting reader is woken by a frame for its map and gets that frame's timestamp — whatever
+    the map's callbacks do, raising ones included; without such a frame it gets nothing.**  (The
+    wait is a function of what is delivered while waiting; `hnr`: no callback of *another* map
+    subscribed to the same COB-ID raises, which would end the dispatch before this map.) -/
 theorem wait_wakes (c : Consumer) (k cob : Nat) (cm : PMap) (data : Bytes) (ts : Int)
     (hnd : c.subs.Nodup) (hk : c.maps[k]? = some cm) (hcc : cm.cobId = some cob)
     (htr : cm.transmitting = false) :
     (waitForReception c k []).2 = none ∧
-    ((cob, k) ∈ c.subs → (waitForReception c k [(cob, data, ts)]).2 = some ts) ∧
+    ((cob, k) ∈ c.subs → (∀ j ∈ targets c cob, j ≠ k → raisesAt c.maps cob data ts j = false) →
+      (waitForReception c k [(cob, data, ts)]).2 = some ts) ∧
     (∀ other, (other, k) ∉ c.subs ∨ other ≠ cob → (waitForReception c k [(other, data, ts)]).2 = none) := by
-  have hklt : k < c.maps.length := by
-    rcases List.getElem?_eq_some_iff.mp hk with ⟨h, _⟩; exact h
-  -- the state in which the wait starts
-  let c0 : Consumer := { c with maps := c.maps.set k { cm with isReceived := false } }
-  have hk0 : c0.maps[k]? = some { cm with isReceived := false } := by
-    simp [c0, List.getElem?_set, hklt]
-  have hnd0 : c0.subs.Nodup := hnd
+  obtain ⟨hk0, hs0⟩ := clearReceived_self c k cm hk
+  have hnd0 : (clearReceived c k).subs.Nodup := by rw [hs0]; exact hnd
+  have htg : ∀ id, targets (clearReceived c k) id = targets c id := fun id => by simp only [targets, hs0]
   refine ⟨?_, ?_, ?_⟩
-  · simp [waitForReception, hk, List.getElem?_set, hklt]
-  · intro hsub
-    have hkt : k ∈ targets c0 cob := by
+  · simp [waitForReception, waitResult, hk0]
+  · intro hsub hnr
+    have hkt : k ∈ targets (clearReceived c k) cob := by
+      rw [htg]
       simp only [targets, List.mem_map, List.mem_filter, decide_eq_true_eq]
       exact ⟨(cob, k), ⟨hsub, rfl⟩, rfl⟩
-    obtain ⟨_, h2, _, _⟩ := notify_updates_exactly_subscribed c0 cob data ts (targets_nodup c0 cob hnd0)
-    have := h2 k _ hkt hk0
-    obtain ⟨_, _, c3, c4, _⟩ := callbacks_once { cm with isReceived := false } cob data ts hcc htr
-    simp only [waitForReception, hk, List.foldl_cons, List.foldl_nil]
-    show (match (notify c0 cob data ts).1.maps[k]? with
-      | some m => ((notify c0 cob data ts).1, if m.isReceived then m.timestamp else none)
-      | none => ((notify c0 cob data ts).1, none)).2 = some ts
-    rw [this]
-    simp [c3, c4]
+    have hkr : k ∈ reached (clearReceived c k) cob data ts :=
+      mem_reach _ k _ hkt (fun j hj hjk => by
+        rw [raisesAt_clear]
+        exact hnr j (by rw [← htg]; exact hj) hjk)
+    obtain ⟨_, _, h2, _⟩ := notify_updates_exactly_subscribed (clearReceived c k) cob data ts
+      (targets_nodup _ cob hnd0)
+    have := h2 k _ hkr hk0
+    simp only [waitForReception, List.foldl_cons, List.foldl_nil, waitResult]
+    rw [this, onMessage_accepted { cm with isReceived := false } cob data ts hcc htr]
+    simp [accept]
   · intro other hoth
-    simp only [waitForReception, hk, List.foldl_cons, List.foldl_nil]
-    show (match (notify c0 other data ts).1.maps[k]? with
-      | some m => ((notify c0 other data ts).1, if m.isReceived then m.timestamp else none)
-      | none => ((notify c0 other data ts).1, none)).2 = none
-    obtain ⟨h1, h2, _, _⟩ := notify_updates_exactly_subscribed c0 other data ts (targets_nodup c0 other hnd0)
-    by_cases hkt : k ∈ targets c0 other
-    · have hne : other ≠ cob := by
+    simp only [waitForReception, List.foldl_cons, List.foldl_nil, waitResult]
+    obtain ⟨h1, _, h2, _⟩ := notify_updates_exactly_subscribed (clearReceived c k) other data ts
+      (targets_nodup _ other hnd0)
+    by_cases hkr : k ∈ reached (clearReceived c k) other data ts
+    · have hkt : k ∈ targets c other := by
+        rw [← htg]; exact (reach_sublist _ _).subset hkr
+      have hne : other ≠ cob := by
         rcases hoth with h | h
         · exfalso
           simp only [targets, List.mem_map, List.mem_filter, decide_eq_true_eq] at hkt
@@ -579,12 +803,80 @@ theorem wait_wakes (c : Consumer) (k cob : Nat) (cm : PMap) (data : Bytes) (ts :
           subst ha hb
           exact h hm
         · exact h
-      rw [h2 k _ hkt hk0,
+      rw [h2 k _ hkr hk0,
         only_subscribed_map_updates { cm with isReceived := false } other data ts
           (Or.inl (by simp only [hcc]; intro h; exact hne (Option.some.inj h).symm))]
       simp
-    · rw [h1 k hkt, hk0]
+    · obtain ⟨_, h1', _⟩ := notify_updates_exactly_subscribed (clearReceived c k) other data ts
+        (targets_nodup _ other hnd0)
+      rw [h1' k hkr, hk0]
       simp
+
+/-- once a reader thread has its result, later frames do not change it -/
+theorem threaded_keeps (k : Nat) (r : Int) :
+    ∀ (arrivals : List (Nat × Bytes × Int)) (c : Consumer),
+      (arrivals.foldl (threadedStep k) (c, some r)).2 = some r := by
+  intro arrivals
+  induction arrivals with
+  | nil => intro c; rfl
+  | cons a rest ih => intro c; simp only [List.foldl_cons, threadedStep]; exact ih _
+
+/-- **A reader in a thread of its own is woken by the first frame for its map and gets that frame's
+    timestamp, whatever the map's callbacks do (raising ones included) and whatever arrives
+    afterwards.** -/
+theorem wait_threaded_wakes (c : Consumer) (k cob : Nat) (cm : PMap) (data : Bytes) (ts : Int)
+    (rest : List (Nat × Bytes × Int))
+    (hnd : c.subs.Nodup) (hk : c.maps[k]? = some cm) (hcc : cm.cobId = some cob)
+    (htr : cm.transmitting = false) (hsub : (cob, k) ∈ c.subs)
+    (hnr : ∀ j ∈ targets c cob, j ≠ k → raisesAt c.maps cob data ts j = false) :
+    (waitThreaded c k ((cob, data, ts) :: rest)).2 = some ts ∧ (waitThreaded c k []).2 = none := by
+  have h1 := (wait_wakes c k cob cm data ts hnd hk hcc htr).2.1 hsub hnr
+  simp only [waitForReception, List.foldl_cons, List.foldl_nil] at h1
+  constructor
+  · simp only [waitThreaded, List.foldl_cons, threadedStep]
+    rw [h1]
+    exact threaded_keeps k ts rest _
+  · rfl
+
+/-- replace the callbacks of consumer map `k` -/
+def setCallbacks (c : Consumer) (k : Nat) (cbs : List (Nat × Bool)) : Consumer :=
+  match c.maps[k]? with
+  | some m => { c with maps := c.maps.set k { m with callbacks := cbs } }
+  | none => c
+
+/-- **The waiter's result is independent of the callbacks' outcomes**: with any other callbacks on
+    the waited-for map — none, well-behaved ones, raising ones in any position — the reader is woken
+    by the same frame and handed the same timestamp. -/
+theorem wait_independent_of_callbacks (c : Consumer) (k cob : Nat) (cm : PMap) (data : Bytes) (ts : Int)
+    (rest : List (Nat × Bytes × Int)) (cbs : List (Nat × Bool))
+    (hnd : c.subs.Nodup) (hk : c.maps[k]? = some cm) (hcc : cm.cobId = some cob)
+    (htr : cm.transmitting = false) (hsub : (cob, k) ∈ c.subs)
+    (hnr : ∀ j ∈ targets c cob, j ≠ k → raisesAt c.maps cob data ts j = false) :
+    (waitThreaded (setCallbacks c k cbs) k ((cob, data, ts) :: rest)).2 = some ts ∧
+    (waitThreaded c k ((cob, data, ts) :: rest)).2 = some ts ∧
+    (waitForReception (setCallbacks c k cbs) k [(cob, data, ts)]).2 = (waitForReception c k [(cob, data, ts)]).2 := by
+  have hklt : k < c.maps.length := by
+    rcases List.getElem?_eq_some_iff.mp hk with ⟨h, _⟩; exact h
+  have hk' : (setCallbacks c k cbs).maps[k]? = some { cm with callbacks := cbs } := by
+    simp only [setCallbacks, hk]
+    simp [hklt]
+  have hs' : (setCallbacks c k cbs).subs = c.subs := by
+    simp only [setCallbacks, hk]
+  have htg : targets (setCallbacks c k cbs) cob = targets c cob := by simp only [targets, hs']
+  have hnr' : ∀ j ∈ targets (setCallbacks c k cbs) cob, j ≠ k →
+      raisesAt (setCallbacks c k cbs).maps cob data ts j = false := by
+    intro j hj hjk
+    have : (setCallbacks c k cbs).maps[j]? = c.maps[j]? := by
+      simp [setCallbacks, hk, List.getElem?_set, Ne.symm hjk]
+    simp only [raisesAt, this]
+    exact hnr j (by rw [← htg]; exact hj) hjk
+  have a := wait_threaded_wakes (setCallbacks c k cbs) k cob _ data ts rest (by rw [hs']; exact hnd) hk' hcc htr
+    (by rw [hs']; exact hsub) hnr'
+  have b := wait_threaded_wakes c k cob cm data ts rest hnd hk hcc htr hsub hnr
+  have w1 := (wait_wakes (setCallbacks c k cbs) k cob _ data ts (by rw [hs']; exact hnd) hk' hcc htr).2.1
+    (by rw [hs']; exact hsub) hnr'
+  have w2 := (wait_wakes c k cob cm data ts hnd hk hcc htr).2.1 hsub hnr
+  exact ⟨a.1, b.1, by rw [w1, w2]⟩
 
 /-! ## non-vacuity -/
 
@@ -602,7 +894,21 @@ example : (runP exMap exSteps).running = some 3600 := by decide
 example : transmit (runP exMap exSteps) = some (0x181, [0xFD, 0xEE, 0x0B]) := by decide
 example : transmit (runP exMap (exSteps.filter PStep.isWrite)) = some (0x181, [0xFD, 0xEE, 0x0B]) := by decide
 example : (start exMap none).2 = false ∧ (start exMap (some 0)).2 = false ∧ (start exMap (some 5)).2 = true := by decide
-example : (onMessage (start exMap (some 5)).1 0x181 [1, 2, 3] 7).2 = [] ∧
-    (onMessage (stop (start exMap (some 5)).1) 0x181 [1, 2, 3] 7).1.data = [1, 2, 3] := by decide
+example : (onMessage (start exMap (some 5)).1 0x181 [1, 2, 3] 7).seen = [] ∧
+    (onMessage (stop (start exMap (some 5)).1) 0x181 [1, 2, 3] 7).map.data = [1, 2, 3] := by decide
+
+/-- observers, the middle one raising: two callbacks run, both see the frame's data and timestamp;
+    the map is updated and the readers are notified all the same -/
+def exObs : PMap := { exMap with callbacks := [(1, false), (2, true), (3, false)], timestamp := some 90 }
+example : ((onMessage exObs 0x181 [1, 2, 3] 100).seen.map fun e => (e.1, e.2.data, e.2.timestamp, e.2.period)) =
+    [(1, [1, 2, 3], some 100, some 10), (2, [1, 2, 3], some 100, some 10)] := by decide
+example : (onMessage exObs 0x181 [1, 2, 3] 100).woken = true ∧ (onMessage exObs 0x181 [1, 2, 3] 100).raised = true ∧
+    (onMessage exObs 0x181 [1, 2, 3] 100).map.timestamp = some 100 := by decide
+/-- two maps on one COB-ID, the first one's callback raises: the second is not reached; a reader of
+    the first is woken -/
+def exCons : Consumer := { maps := [exObs, exMap], subs := [(0x181, 0), (0x181, 1)] }
+example : reached exCons 0x181 [1, 2, 3] 100 = [0] := by decide
+example : (waitThreaded exCons 0 [(0x181, [1, 2, 3], 100), (0x181, [4, 5, 6], 101)]).2 = some 100 := by decide
+example : (waitThreaded exCons 1 [(0x181, [1, 2, 3], 100)]).2 = none := by decide
 
 end Canopen.C15
